@@ -24,8 +24,10 @@ from .common import Result
 PROP = "C01"
 RULE = ("movies: 1-3 D integer lattices, 2-8 (thorough: up to 25) frames, 0-12 (40) features per "
         "frame, empty/missing frames, duplicate positions, exact-range distances, memory 0-3, "
-        "scalar or per-axis search_range, all strategies x 3 entry points; tables: shuffled rows, "
-        "odd indexes, payload columns.  Non-trivial = at least one contested sub-net or one "
+        "scalar or per-axis search_range, all strategies x 3 entry points; tables (link and "
+        "link_df_iter): shuffled rows, odd indexes (strings, duplicates, named 'frame'), payload "
+        "columns, float / non-integral / negative frames, missing frames, single-frame tables, each "
+        "also through the function-mode comparison with Model/LinkTable.lean.  Non-trivial = at least one contested sub-net or one "
         "memory re-link (counted by the monitor), or a table with a non-default index; distinct = "
         "distinct canonical input.")
 ASSUMPTIONS = [
@@ -38,6 +40,12 @@ ASSUMPTIONS = [
     "frames count as elapsed frames (they become empty levels)",
     "'same index' compares index values; pandas_sort's documented renaming of a clashing index "
     "name is not a violation",
+    "table adapters (function mode): index labels and the non-coordinate columns travel to the model "
+    "as integer tokens (equal label <-> equal token); the sort permutation is read off the OUTPUT "
+    "table (unique tag column, else first unused identical row) and only required to be a "
+    "frame-sorted permutation (pandas' default sort is not stable); 'frame coerced to integer' is "
+    "truncation toward zero, as astype(np.int64) does for non-integral float frames; link_iter is "
+    "wrapped (monkeypatched module global, no repo edit) to observe the levels link feeds to it",
 ]
 MIN_NONTRIVIAL = 20
 STRATEGIES = ["recursive", "nonrecursive", "numba", "hybrid", "auto", "drop", None]
@@ -261,6 +269,43 @@ def table_function_mode(ctx, res, inp, df, out, spy, cols):
         res.stat("fm_single_level")
 
 
+def coords_direct_mode(ctx, res, inp, df, cols):
+    """coords_from_df called directly on the UNSORTED table (integer frames): the stable argsort /
+    unique / split pipeline against coordsFromDf (theorem coordsFromDf_levels: rows of a frame in
+    table order).  Inside `link` the table is already sorted, which hides the argsort."""
+    from trackpy.linking.utils import coords_from_df
+    d = df.copy()
+    d["frame"] = np.trunc(d["frame"].values.astype(float)).astype(np.int64)
+    idx_tok, pay_tok = _Tokens(), _Tokens()
+    rin = _row_fields(d, cols, inp["payload"], idx_tok, pay_tok)
+    if rin is None:
+        return
+    try:
+        got = [(t, np.array(c, dtype=float)) for t, c in coords_from_df(d, cols, "frame")]
+    except Exception as e:
+        res.violation("correspondence-break", "coords_from_df raised %s on an unsorted table: %s"
+                      % (type(e).__name__, str(e)[:150]), broken="LinkTable.coordsFromDf",
+                      signature=dict(stream="table", what="coords_from_df raised"))
+        return
+    lv_req, lv_cmp = [], []
+    for t, arr in got:
+        pts = _int_pts(arr) if len(arr) else []
+        if pts is None:
+            pts = [[-999999]]
+        lv_req.append(("%d %s" % (int(t), _pts_str(pts, " "))).strip())
+        lv_cmp.append("%d:%s" % (int(t), _pts_str(pts, "+")))
+    line = "LTABLE %s | %s | %s | -" % (" ; ".join(_row_req(r) for r in rin),
+                                        " ".join(map(str, range(len(rin)))), " ; ".join(lv_req))
+    m = common.kv(ctx.ask(line))
+    res.stat("fm_direct_coords_from_df")
+    if m.get("levels") != ";".join(lv_cmp) or m.get("lvmatch") != "1":
+        res.violation("correspondence-break",
+                      "coords_from_df on an unsorted table differs from coordsFromDf (stable order "
+                      "within a frame / one level per integer frame)",
+                      impl=";".join(lv_cmp), model=m, broken="LinkTable.coordsFromDf / coordsFromDf_levels",
+                      signature=dict(stream="table", what="coords_from_df direct"))
+
+
 def run_table_case(ctx, inp):
     import random
     import pandas as pd
@@ -311,6 +356,10 @@ def run_table_case(ctx, inp):
     except SubnetOversizeException:
         res.stat("oversize")
         return res
+    except Exception as e:      # a valid table: nothing else may be raised
+        res.violation("property-violation", "link raised %s: %s" % (type(e).__name__, str(e)[:200]),
+                      signature=dict(stream="table", what="link raised " + type(e).__name__))
+        return res
     res.stat("tables")
     res.stat("index_" + kind)
     res.nontrivial = kind != "range" or inp["payload"]
@@ -353,6 +402,7 @@ def run_table_case(ctx, inp):
         return res
     # ---- function mode: the adapters against Model/LinkTable.lean
     table_function_mode(ctx, res, inp, df, out, spy, cols)
+    coords_direct_mode(ctx, res, inp, df, cols)
     # ---- labels valid (monitor)
     fr = out["frame"].values
     levels = []
@@ -419,6 +469,10 @@ def run_itable_case(ctx, inp):
                 outs.append(o)
     except SubnetOversizeException:
         res.stat("oversize")
+        return res
+    except Exception as e:
+        res.violation("property-violation", "link_df_iter raised %s: %s" % (type(e).__name__, str(e)[:200]),
+                      signature=dict(stream="itable", what="link_df_iter raised " + type(e).__name__))
         return res
     res.stat("itables")
     res.stat("index_" + kind)
